@@ -647,6 +647,10 @@ def run_plan(case):
             blocks.append({'M': int(c['q'].shape[0]), 'P': int(c['r'].shape[0]), 'N': int(c['r'].shape[1]), 'Q': imat(c['q']), 'R': imat(c['r']),
                            'out': None if nan else [imat(qk), imat(rk)], 'shapes_ok': qk.shape == c['q'].shape and rk.shape == c['r'].shape})
         out['blocks'] = blocks
+        if mode == 'complete':
+            # tie of Model/FactorDense3.v qr_complete_Q: Q._qdata and the identity fill-in behind the stored blocks
+            out['qfill'] = {'rs': [int(x) for x in b.legs[0].get_block_sizes()], 'rows': [int(q[0]) for q in b._qdata],
+                            'qd': [[int(q[0]), int(q[1])] for q in Q._qdata], 'extra': [imat(x) for x in Q._data[len(calls):]]}
         return out
     if what == 'svdasm':
         full = bool(case['opts']['full_matrices'])
